@@ -102,6 +102,12 @@ Record tag := { tname : str; targs : option str; tvalue : str }.
 
 Inductive line_result := LSkip | LTag (t : tag) | LErr (e : errkind) | LPanic.
 
+Definition wants_empty_name (key : str) (names : list str) : bool :=
+  match fst (split_first LP key) with
+  | [] => match names with [] => true | _ => mem_str [] names end
+  | _ => false
+  end.
+
 Definition parse_fn_line (marker : str) (names : list str) (line : str) : line_result :=
   let line := trim is_space line in
   match line with
@@ -116,7 +122,9 @@ Definition parse_fn_line (marker : str) (names : list str) (line : str) : line_r
     | Err e => LErr e
     | Ok (name, args) =>
         match name with
-        | [] => LSkip
+        | [] => (* parseTagKey's "" means "not asked for" -- unless the tag's own name is empty and
+                   that was asked for (fix: commit recorded in KNOWN_FINDINGS.txt) *)
+                if wants_empty_name key names then LTag {| tname := []; targs := args; tvalue := val |} else LSkip
         | _ => LTag {| tname := name; targs := args; tvalue := val |}
         end
     end
